@@ -3,7 +3,7 @@
    writes are inverted by the path pkg_open uses, for every column list create_table accepts; what the format cannot
    represent is refused.  Persistence of the catalog rows themselves is C01 (rows / pool round trip).
    Statements only; every proof is `exact <lemma>` from theories/. *)
-From MsiModel Require Import Base Sexp Value Expr Category CategoryProofs Column ColumnProofs CodePage Pool Table Container StreamName Propset Summary Query Package CatalogProofs.
+From MsiModel Require Import Base Sexp Value Expr Category CategoryProofs Column ColumnProofs CodePage Pool Table Container StreamName Propset Summary Query Package CatalogProofs PoolProofs TableProofs QueryProofs DbInv PropsetCodecProofs PackageProofs PkgInv UpdateRefine PkgInv2 InsertRefine DeleteRefine DmlPkgProofs DropTableProofs MiscOpsProofs ReopenProofs CreateTableLemmas CreateTableProofs StreamProofs Reach ReachStreams.
 From MsiGen Require Import GenConsts GenCatalog GenColumn.
 Open Scope N_scope.
 
@@ -109,6 +109,43 @@ Theorem C06_width_300 :
               (col_bits (mk_probe (Str 300) false false false false))) = Ok (Str 44).
 Proof. exact width_300_not_representable. Qed.
 
+(* end to end: a table create_table accepted on a reachable package is reported with exactly the columns given, immediately and after saving and reopening *)
+Theorem C06_created_table_reopens :
+  forall (prof : profile) (k : pkg) (tn : str) (cols : list column) (k' : pkg),
+         reachable prof k ->
+         enums_scalar cols ->
+         pkg_create_table prof k tn cols = (k', Ok tt) ->
+         find_table (k_tabs k') tn = Some {| t_name := tn; t_cols := cols; t_long := p_long (k_pool k) |} /\
+         (exists k1 k2 : pkg,
+            pkg_flush k' = Some k1 /\
+            pkg_open prof (k_cont k1) = Ok k2 /\
+            find_table (k_tabs k2) tn = Some {| t_name := tn; t_cols := cols; t_long := p_long (k_pool k) |}).
+Proof. exact created_table_reopens. Qed.
+
+(* what a successful create_table does, in full *)
+Theorem C06_create_table_ok :
+  forall (prof : profile) (k : pkg) (tn : str) (cols : list column) (k' : pkg),
+         PInv3 prof k ->
+         enums_scalar cols ->
+         pkg_create_table prof k tn cols = (k', Ok tt) ->
+         PInv3 prof k' /\
+         find_table (k_tabs k) tn = None /\
+         find_table (k_tabs k') tn = Some {| t_name := tn; t_cols := cols; t_long := p_long (k_pool k) |} /\
+         tvals prof (the_db k') {| t_name := tn; t_cols := cols; t_long := p_long (k_pool k) |} = Ok [] /\
+         (forall n : str, n <> tn -> find_table (k_tabs k') n = find_table (k_tabs k) n) /\
+         (forall e : str * table,
+          In e (k_tabs k) ->
+          is_core (fst e) = false ->
+          fst e <> VALIDATION_TABLE_NAME -> tvals prof (the_db k') (snd e) = tvals prof (the_db k) (snd e)) /\
+         k_type k' = k_type k /\
+         k_sum k' = k_sum k /\
+         pkg_streams k' = pkg_streams k /\
+         (forall n : str,
+          sn_is_valid n false = true ->
+          ct_find (ct_entries (k_cont k')) (sn_encode n false) = ct_find (ct_entries (k_cont k)) (sn_encode n false)) /\
+         cols <> [] /\ nlen cols <= MAX_NUM_TABLE_COLUMNS.
+Proof. exact create_table_ok. Qed.
+
 Print Assumptions C06_constants.
 Print Assumptions C06_type_word.
 Print Assumptions C06_category_names.
@@ -119,3 +156,5 @@ Print Assumptions C06_accepted_storable.
 Print Assumptions C06_accepted_reopens.
 Print Assumptions C06_refused.
 Print Assumptions C06_width_300.
+Print Assumptions C06_created_table_reopens.
+Print Assumptions C06_create_table_ok.
